@@ -12,7 +12,7 @@ ID = "C16"
 READY = True
 LEVEL = "exploration"
 WORKERS = {"quick": 8, "thorough": 16}
-BUDGET = {"quick": 56, "thorough": 600}
+BUDGET = {"quick": 100, "thorough": 600}
 MIN_NONTRIVIAL = {"quick": 150, "thorough": 3000}
 REQUIRED_HOOKS = ["first-use-schedule", "schedule", "scheduling-point", "switch-inside-library-code", "stress-evaluation", "single-preemption-schedule"]
 RULE = (
@@ -66,17 +66,25 @@ def bindings_for(prog, j, limit=None):
     return out
 
 
-def thread_work(runner, prog, bind_list, sink):
-    """What one thread does: its own Environment, program and evaluations."""
+def build_program(runner, prog):
+    c = core.celpy()
+    env = c.Environment(runner_class=core.runner_class(runner))
+    return env.program(env.compile(prog[0]))
+
+
+def thread_work(runner, prog, bind_list, sink, on_built=None, prebuilt=None):
+    """What one thread does: its own Environment, program and evaluations.  With `prebuilt` the environment and program were
+    created beforehand (for this thread alone, never shared with another one) and the thread only evaluates."""
     c = core.celpy()
 
     def body():
         try:
-            env = c.Environment(runner_class=core.runner_class(runner))
-            p = env.program(env.compile(prog[0]))
+            p = prebuilt if prebuilt is not None else build_program(runner, prog)
         except Exception as ex:
             sink.append(["X", "construction", type(ex).__name__])
             return
+        if on_built is not None:
+            on_built()
         for b in bind_list:
             try:
                 v = p.evaluate(MV.cel_env(b))
@@ -116,6 +124,7 @@ class Explorer:
         self.s = sched.Scheduler(interesting)
         self.traces = set()
         self.solo_cache = {}
+        self.site_code = {}  # (file, line) -> code object, learnt in profiling runs
 
     def run_schedule(self, kind, specs, policy, label, limits=None, fresh_bindings=None):
         """specs: list of (runner, program); returns True when every thread matched its solo outcome.
@@ -134,7 +143,7 @@ class Explorer:
                 if key not in self.solo_cache:
                     self.solo_cache[key] = solo(runner, prog, bl)  # the same calls made alone, single-threaded
                 solos.append(self.solo_cache[key])
-            bodies.append(thread_work(runner, prog, bl, sinks[j]))
+            bodies.append(thread_work(runner, prog, bl, sinks[j], on_built=(lambda j=j: self.s.built.__setitem__(j, True))))
         self.s.install()
         ok_run = self.s.run(bodies, policy)
         if fresh_bindings:
@@ -171,6 +180,58 @@ class Explorer:
                 )
         return good
 
+    def fast_schedule(self, kind, specs, site, occurrence, label, limits=None, fresh_bindings=None, after_built=False, prebuilt=(None, None)):
+        """Single preemption of thread 0 at (site, occurrence), thread 1 running to completion meanwhile; uses the per-code-object
+        monitor when the site's code object is known and stable (library code), the baton scheduler otherwise ('<string>' code)."""
+        code = self.site_code.get(site)
+        if code is None or site[0] == "<string>":
+            return self.run_schedule(kind, specs, sched.preempt_at_site(site, occurrence, first_after_built=after_built), label, limits=limits, fresh_bindings=fresh_bindings)
+        acc = self.acc
+        sinks = [[] for _ in specs]
+        bls, solos = [], []
+        for j, (runner, prog) in enumerate(specs):
+            bl = fresh_bindings[j] if fresh_bindings else bindings_for(prog, j, limits[j] if limits else None)
+            bls.append(bl)
+            if not fresh_bindings:
+                key = (runner, prog[0], j, limits[j] if limits else None)
+                if key not in self.solo_cache:
+                    self.solo_cache[key] = solo(runner, prog, bl)
+                solos.append(self.solo_cache[key])
+        built = {}
+        body_a = thread_work(specs[0][0], specs[0][1], bls[0], sinks[0], on_built=lambda: built.__setitem__(0, True), prebuilt=prebuilt[0])
+        body_b = thread_work(specs[1][0], specs[1][1], bls[1], sinks[1], prebuilt=prebuilt[1])
+        switched, finished = self.s.run_fast(code, site[1], occurrence, body_a, body_b, armed=(lambda: built.get(0, False)) if after_built else None)
+        if fresh_bindings:
+            solos = [solo(runner, prog, bl) for (runner, prog), bl in zip(specs, bls)]
+        acc.hook("schedule")
+        acc.hook("fast-schedule")
+        if switched:
+            acc.hook("switch-inside-library-code")
+            tkey = f"fast:{kind}:{specs[0][0]}{specs[1][0]}:{specs[0][1][0][:40]}|{specs[1][1][0][:40]}:{site[0]}:{site[1]}#{occurrence}"
+            if tkey not in self.traces:
+                self.traces.add(tkey)
+                acc.nt([tkey])
+        acc.evaluations += sum(len(x) for x in sinks)
+        mix = "".join(r for r, _ in specs)
+        acc.cell(kind, mix, "switches%d" % (1 if switched else 0), "ok" if finished else "watchdog")
+        if not finished:
+            acc.inconclusive.append(f"a thread did not finish in a {kind} schedule ({label})")
+            return True
+        good = True
+        for j, (got, want) in enumerate(zip(sinks, solos)):
+            if got != want:
+                good = False
+                k = next((i for i, (g, w) in enumerate(zip(got, want)) if g != w), min(len(got), len(want)))
+                g = got[k] if k < len(got) else ["missing"]
+                w = want[k] if k < len(want) else ["missing"]
+                other = [r for i, (r, _) in enumerate(specs) if i != j]
+                acc.violation(
+                    f"thread-runner={specs[j][0]} other-runners={''.join(sorted(set(other)))} phase={'construction' if g[:2] == ['X', 'construction'] else 'evaluate'} obs={diag.oclass(g) if g[0] in 'VEXP' else g[0]} solo={diag.oclass(w) if w[0] in 'VEXP' else w[0]}",
+                    f"[{kind} {label}] thread {j} ({specs[j][0]}) evaluating {specs[j][1][0]!r}: call {k} returned {core.jkey(g)[:80]} but {core.jkey(w)[:80]} when run alone; thread 0 was preempted before {site[0]}:{site[1]} (occurrence {occurrence}) while thread 1 ran to completion",
+                    {"kind": kind, "specs": [[r, PROGRAMS.index(p) if p in PROGRAMS else -1] for r, p in specs], "label": label},
+                )
+        return good
+
     def count_points(self, runner, prog, limit=None):
         """Number of scheduling points of thread A's solo run."""
         sink = []
@@ -182,17 +243,25 @@ class Explorer:
         """Solo run of thread A recording the source site of every scheduling point.
         Returns (number of points, {site: index of its first occurrence}, {site: occurrences})."""
         sink = []
+        built_at = []
         self.s.install()
         self.s.site_log = []
+        self.s.site_code = self.site_code
         try:
-            self.s.run([thread_work(runner, prog, bindings_for(prog, 0, limit), sink)], sched.never)
+            self.s.run([thread_work(runner, prog, bindings_for(prog, 0, limit), sink, on_built=lambda: built_at.append(len(self.s.site_log)))], sched.never)
             log = self.s.site_log
         finally:
             self.s.site_log = None
+            self.s.site_code = None
         first, count = {}, {}
+        self.construction_sites = set(log[: built_at[0]]) if built_at else set(log)
+        self.eval_first, self.eval_count = {}, {}
         for i, site in enumerate(log, 1):
             first.setdefault(site, i)
             count[site] = count.get(site, 0) + 1
+            if built_at and i > built_at[0]:
+                self.eval_first.setdefault(site, i)
+                self.eval_count[site] = self.eval_count.get(site, 0) + 1
         return len(log), first, count
 
 
@@ -237,8 +306,9 @@ def first_use_schedules(ex, acc, ctx, rnd, seconds):
     j = 0
     profiles = {}
     while time.monotonic() - t0 < seconds and not ctx.expired():
-        fam = fams[(j + ctx.worker) % len(fams)]
-        ra, rb = [("C", "C"), ("I", "I"), ("C", "I"), ("I", "C")][(j // len(fams) + ctx.worker) % 4]
+        # one family per worker (two when there are fewer workers than families), the runner pairs in turn
+        fam = fams[(ctx.worker + (j % 2) * 3) % len(fams)] if getattr(ctx, "nworkers", 8) < 2 * len(fams) else fams[ctx.worker % len(fams)]
+        ra, rb = [("C", "C"), ("I", "I"), ("C", "I"), ("I", "C")][(j // 2 + ctx.worker) % 4]
         j += 1
         prog = FRESH_PROGRAMS[fam]
         pk = (fam, ra)
@@ -247,21 +317,29 @@ def first_use_schedules(ex, acc, ctx, rnd, seconds):
             if k0 is None:
                 continue
             sink = []
+            built_at = []
             ex.s.install()
             ex.s.site_log = []
+            ex.s.site_code = ex.site_code
             try:
-                ex.s.run([thread_work(ra, prog, [{"k": k0}], sink)], sched.never)
+                ex.s.run([thread_work(ra, prog, [{"k": k0}], sink, on_built=lambda: built_at.append(len(ex.s.site_log)))], sched.never)
                 log = ex.s.site_log
             finally:
                 ex.s.site_log = None
+                ex.s.site_code = None
+            start = built_at[0] if built_at else 0
             first, count = {}, {}
             for i, site in enumerate(log, 1):
+                if i <= start:
+                    continue  # construction was explored by the ordinary single-preemption phase; the per-key work is in evaluate()
                 first.setdefault(site, i)
                 count[site] = count.get(site, 0) + 1
-            # sites inside the evaluation phase that are executed once or twice, latest first (the per-key work sits at the end)
-            idxs = sorted((i for site, i in first.items() if count[site] <= 2), reverse=True)
-            rest = sorted((i for site, i in first.items() if count[site] > 2), reverse=True)
+            # lines of the evaluation phase, those executed at most three times first (in program order), then the others
+            # a table filled on the first use of a key runs its fill path once: the rarest lines first
+            idxs = [site for site, i in sorted(first.items(), key=lambda kv: (count[kv[0]], kv[1])) if count[site] <= 3]
+            rest = [site for site, i in sorted(first.items(), key=lambda kv: kv[1]) if count[site] > 3]
             profiles[pk] = [idxs + rest, 0]
+            acc.extra["first_use_sites"] = acc.extra.get("first_use_sites", 0) + len(idxs) + len(rest)
         order, pos = profiles[pk]
         if pos >= len(order):
             continue
@@ -271,8 +349,10 @@ def first_use_schedules(ex, acc, ctx, rnd, seconds):
         if key is None or key2 is None:
             continue
         # both threads meet the same never-seen key first; thread A then goes on to a second new key
-        ok = ex.run_schedule("first-use", [(ra, prog), (rb, prog)], sched.single_preemption(order[pos]), f"{fam} {ra}{rb} point {order[pos]}", fresh_bindings=[[{"k": key}, {"k": key2}], [{"k": key}]])
+        site = order[pos]
+        ok = ex.fast_schedule("first-use", [(ra, prog), (rb, prog)], site, 1, f"{fam} {ra}{rb} {site[0]}:{site[1]}", fresh_bindings=[[{"k": key}, {"k": key2}], [{"k": key}]], after_built=True)
         acc.hook("first-use-schedule")
+        acc.extra["first_use_sites_preempted"] = acc.extra.get("first_use_sites_preempted", 0) + 1
         acc.cell("first-use", fam, ra + rb, "ok" if ok else "differ")
 
 
@@ -332,52 +412,72 @@ def run(ctx):
     # window that is executed once (environment construction, the fill path of a memo); so the preemption points are chosen by
     # SOURCE SITE: the first occurrence of every distinct line A executes, the rarely executed lines (<= 2 occurrences) first,
     # then a stride over the remaining points.  A evaluates two activations (the second one sees what B left behind), B one.
-    pairs = [("C", "C"), ("C", "I"), ("I", "C"), ("I", "I")]
-    npairs = 3 if not ctx.thorough else 20
-    budget_each = t_sched * 0.5 / max(1, npairs)
+    # Slots: every program of the pool is thread A's program once with two compiled and once with two interpreted threads (the
+    # shared state of one runner class is reached only when both threads use it); slots beyond two passes over the pool mix runners.
+    npairs = 6 if not ctx.thorough else 24
+    budget_each = t_sched * 0.58 / max(1, npairs)
     for pi in range(npairs):
-        ra, rb = pairs[(pi + ctx.worker) % len(pairs)]
-        # every program is thread A's program in some worker; two pairs in three run the SAME expression text in both threads
-        # (own environments, bindings walked in another order): interference through a memo needs both threads in the same library code
-        pa = PROGRAMS[(ctx.worker * npairs + pi + ctx.seed) % len(PROGRAMS)]
-        pb = pa if pi % 3 != 1 else rnd.choice(PROGRAMS)
+        g = ctx.worker * npairs + pi
+        idx = (g + ctx.seed) % len(PROGRAMS)
+        pass_no = g // len(PROGRAMS)
+        ra, rb = [("C", "C"), ("I", "I")][(idx + pass_no) % 2] if pass_no < 2 else [("C", "I"), ("I", "C")][g % 2]
+        pa = PROGRAMS[idx]
+        pb = pa
         lim = [2, 1] if not ctx.thorough else [3, 2]
         n_a, first, count = ex.profile(ra, pa, lim[0])
         if n_a == 0:
             acc.inconclusive.append("no scheduling points observed in a solo run")
             break
-        rare = sorted(i for site, i in first.items() if count[site] <= 2)
-        common = sorted(i for site, i in first.items() if count[site] > 2)
-        rnd.shuffle(rare)
-        rnd.shuffle(common)
-        want = 40 if not ctx.thorough else 300
-        stride = max(1, n_a // want)
-        extra = [i for i in range(1 + rnd.randrange(stride), n_a + 1, stride) if i not in first.values()]
+        # preemption is requested by SOURCE SITE and occurrence (robust against runs whose earlier line counts differ).
+        # Sites first reached while A builds its environment and program need A's whole run; sites of the evaluation phase are
+        # explored with A's program built beforehand (for A alone), which makes a schedule several times cheaper; thread B builds
+        # its own environment and program inside the schedule every other time.
+        order = sorted(first.items(), key=lambda kv: kv[1])
+        cons = [(site, 1, False) for site, i in order if site in ex.construction_sites and site not in ex.eval_first]
+        ev_rare = [(site, 1, True) for site, i in sorted(ex.eval_first.items(), key=lambda kv: kv[1]) if ex.eval_count[site] <= 2]
+        ev_common = [(site, 1, True) for site, i in sorted(ex.eval_first.items(), key=lambda kv: kv[1]) if ex.eval_count[site] > 2]
+        ev_later = [(site, ex.eval_count[site] // 2 + 1, True) for site, i in sorted(ex.eval_first.items(), key=lambda kv: kv[1]) if ex.eval_count[site] > 2]
+        for lst in (cons, ev_rare, ev_common, ev_later):
+            rnd.shuffle(lst)
+        # thread B runs the same expression text (interference through a memo needs both threads in the same library code with
+        # different inputs) or another one (interference through state that holds pieces of a program shows only then): the
+        # construction phase is always explored against ANOTHER program, the evaluation phase against both in turn
+        po = rnd.choice([p for p in PROGRAMS if p is not pa])
+        try:
+            pre_a, pre_b, pre_o = build_program(ra, pa), build_program(rb, pb), build_program(rb, po)
+        except Exception:
+            pre_a = pre_b = pre_o = None
         t0 = time.monotonic()
         done = {"rare": 0, "common": 0, "stride": 0}
-        complete = True
-        for group, idxs in (("rare", rare), ("common", common), ("stride", extra)):
-            for i in idxs:
+        nsched = 0
+        if pi % 3 != 0 and not ctx.thorough:
+            cons = []  # quick tier: the construction phase is explored in every third slot only -- and first
+        for group, targets in (("rare", cons), ("rare", ev_rare), ("common", ev_common), ("stride", ev_later)):
+            for site, occ, in_eval in targets:
                 if time.monotonic() - t0 > budget_each or ctx.expired():
-                    complete = False
                     break
-                ex.run_schedule("single-preemption", [(ra, pa), (rb, pb)], sched.single_preemption(i), f"{ra}{rb} point {i}/{n_a} ({group} site)", limits=lim)
+                nsched += 1
+                other = (not in_eval) or nsched % 3 == 0
+                pbx, prex = (po, pre_o) if other else (pb, pre_b)
+                pre = (pre_a if in_eval else None, prex if (in_eval and nsched % 2 == 0) else None)
+                ex.fast_schedule("single-preemption", [(ra, pa), (rb, pbx)], site, occ, f"{ra}{rb} {site[0]}:{site[1]} occurrence {occ} ({group} site)", limits=lim, prebuilt=pre)
                 acc.hook("single-preemption-schedule")
                 done[group] += 1
+        rare, common = ev_rare + cons, ev_common
         acc.extra["single_preemption_points_total"] = acc.extra.get("single_preemption_points_total", 0) + n_a
         acc.extra["distinct_sites_in_A"] = acc.extra.get("distinct_sites_in_A", 0) + len(first)
         acc.extra["rare_sites_in_A"] = acc.extra.get("rare_sites_in_A", 0) + len(rare)
         acc.extra["rare_sites_preempted"] = acc.extra.get("rare_sites_preempted", 0) + done["rare"]
         acc.extra["other_sites_preempted"] = acc.extra.get("other_sites_preempted", 0) + done["common"]
-        acc.extra["stride_points_preempted"] = acc.extra.get("stride_points_preempted", 0) + done["stride"]
+        acc.extra["later_occurrences_preempted"] = acc.extra.get("later_occurrences_preempted", 0) + done["stride"]
         if done["rare"] == len(rare) and done["common"] == len(common):
             acc.exhaustive.append(f"single preemption at the first occurrence of every distinct source line of one {ra}{rb} pair ({len(first)} sites)")
     # (a') first use of a key
-    first_use_schedules(ex, acc, ctx, rnd, t_sched * 0.14)
+    first_use_schedules(ex, acc, ctx, rnd, t_sched * 0.2)
     # (b) PCT-style and (c) random walks
     t1 = time.monotonic()
     j = 0
-    while time.monotonic() - t1 < t_sched * 0.26 and not ctx.expired():
+    while time.monotonic() - t1 < t_sched * 0.1 and not ctx.expired():
         j += 1
         nth = rnd.choice([2, 2, 3, 4])
         mix = rnd.choice(["CCCC", "IIII", "CICI", "ICCI"])[:nth]
